@@ -585,6 +585,28 @@ PROPS['C14']['rules'] += [R6.rule_selection_narrowed]
 for _pid in ('C06', 'C17', 'C02'):
     PROPS[_pid]['rules'] += [R6.rule_compressed_matrix]
 PROPS['C03']['rules'] += [R6.rule_sniff_agrees]
+PROPS['C09']['rules'] += [R6.rule_oneshot, R6.rule_order_by_position]
+for _pid in ('C20', 'C08', 'C11'):
+    PROPS[_pid]['rules'].append(partial(
+        R6.rule_warning_suppression, rels={'biom/table.py', 'biom/err.py',
+                                           'biom/util.py', 'biom/parse.py'}))
+PROPS['C01']['rules'] += [R6.rule_partial_decode, R6.rule_date_whole]
+PROPS['C02']['rules'] += [R6.rule_date_whole, R6.rule_dense_flag]
+PROPS['C04']['rules'] += [R6.rule_group_md_order]
+PROPS['C03']['rules'] += [R6.rule_seek_offsets]
+PROPS['C19']['rules'] += [R6.rule_all_samples_counted]
+for _pid in ('C14', 'C05'):
+    PROPS[_pid]['rules'] += [R6.rule_stale_index]
+PROPS['C04']['rules'] += [R4.rule_category_sets]
+PROPS['C01']['rules'] += [R6.rule_group_md_order]
+PROPS['C06']['rules'] += [R6.rule_transpose_copies]
+PROPS['C07']['rules'] += [R6.rule_transpose_copies]
+PROPS['C11']['rules'] += [R6.rule_dict_form]
+PROPS['C12']['rules'] += [R6.rule_negative_slice]
+PROPS['C19']['rules'] += [R6.rule_first_probe]
+PROPS['C19']['rules'] += [R6.rule_empty_reduce]
+PROPS['C13']['rules'] += [R6.rule_reciprocal]
+PROPS['C16']['rules'] += [R6.rule_eq_fields]
 PROPS['C01']['rules'] += [R6.rule_formatter_identity, R6.rule_category_loop,
                           R6.rule_h5_string_type]
 PROPS['C04']['rules'] += [R6.rule_h5_string_type]
